@@ -293,3 +293,15 @@ def contracts():
     for c in extra:
         c.prop = "C03"
     return _c03_base4() + extra
+
+# class-level watchers of an inherited Parameter: the subclass's copy shares the watcher table
+_c03_base5 = contracts
+
+
+def contracts():
+    from contracts import c13 as _c13
+    c = _c13.metaclass_setattr_contract()
+    c.prop = "C03"
+    c.clause_prefixes = ["C03/"]
+    c.name = "ParameterizedMetaclass.__setattr__[watcher table of the copied Parameter]"
+    return _c03_base5() + [c]
